@@ -487,7 +487,7 @@ func (h *httpServerHandler) handlePostResponse(ctx context.Context, w http.Respo
 	}
 
 	// Deliver response using responseManager.
-	if h.responseManager.DeliverResponse(requestIDStr, responseMessage) {
+	if h.responseManager.DeliverResponse(pendingRequestKey(sessionID, requestIDStr), responseMessage) {
 		h.logger.Debugf("Successfully delivered response for request ID: %v", response.ID)
 	} else {
 		h.logger.Debugf("Received response for unknown request ID: %v", response.ID)
@@ -776,9 +776,11 @@ func (h *httpServerHandler) SendRequest(ctx context.Context, sessionID string, r
 
 	// Register request and get response channel.
 	requestIDStr := fmt.Sprintf("%v", request.ID)
-	responseChan := h.responseManager.RegisterRequest(requestIDStr)
+	// The entry is keyed by session as well: only the session the request was sent to may answer it.
+	requestKey := pendingRequestKey(sessionID, requestIDStr)
+	responseChan := h.responseManager.RegisterRequest(requestKey)
 	verifEvent("sreq.registered", sessionID, requestIDStr)
-	defer h.responseManager.UnregisterRequest(requestIDStr)
+	defer h.responseManager.UnregisterRequest(requestKey)
 
 	// Send the request through GET SSE using the proper sendRequest method.
 	conn.writeLock.Lock()
@@ -830,6 +832,11 @@ func (h *httpServerHandler) isValidPath(requestPath string) bool {
 		return true
 	}
 	return requestPath == h.serverPath
+}
+
+// pendingRequestKey builds the pending-table key of a server-to-client request.
+func pendingRequestKey(sessionID, requestID string) string {
+	return sessionID + "\x00" + requestID
 }
 
 // responseManager manages pending requests and their response channels.
